@@ -1,2 +1,40 @@
-(* C06 placeholder *)
-From Rdest Require Import Base Consts Wire Conn.
+(* C06 — peer stream decoding is total, segmentation-independent and bounded. *)
+From Rdest Require Import Base Consts Wire Conn ConnProofs Manager Handler HandlerProofs.
+Open Scope N_scope.
+
+(* no byte sequence makes the decoder panic (Frame::parse and Connection::parse_frame) *)
+Theorem C06_total : forall buf, conn_parse buf <> PCrash /\ parse_frame buf <> PPanic.
+Proof.
+  intros buf. split; [apply conn_parse_total; reflexivity|].
+  pose proof (parse_frame_bounds buf). destruct (parse_frame buf); try discriminate. contradiction.
+Qed.
+
+(* a peer can never make the client wait with one maximum-size frame (4 + 65536 bytes) or more buffered;
+   what a single read adds on top is a run-time quantity and is not claimed *)
+Theorem C06_bounded : forall buf, conn_parse buf = PWait -> len buf < 4 + 65536.
+Proof. exact conn_wait_bounded. Qed.
+
+(* every delivered or skipped message consumes bytes: recv_frame's loop always makes progress *)
+Theorem C06_progress : forall buf, match conn_parse buf with
+                                   | PDeliver _ rest | PSkip rest => len rest < len buf
+                                   | _ => True
+                                   end.
+Proof. exact conn_parse_progress. Qed.
+
+(* a receive error (malformed length, oversized frame, truncated stream) ends the peer task *)
+Theorem C06_error_terminates : forall sha1 cf disk ovf s r, hstep sha1 cf disk ovf s ERecvErr r = HEnd s [] false.
+Proof. reflexivity. Qed.
+
+(* full statement kept visible (segmentation independence):
+     forall reads, fst (fst (run_conn reads)) = fst (fst (spec_stream (concat reads)))
+   not proved in Coq yet; it is decided per prefix by the correspondence (all 2^(n-1) cuts of short streams). *)
+
+(* the pinned decoder is refuted: an unknown id whose body has not arrived crashed the connection *)
+Example C06_nonvacuous : parse_frame [0;0;0;5;9;0] = PUnknown 9 9 /\ conn_parse [0;0;0;5;9;0] = PWait
+                         /\ run_conn [[0;0;0;5;9;0]; [1;2;3;0;0;0;1;0]] = ([Choke], RPending, []).
+Proof. vm_compute. repeat split. Qed.
+
+Print Assumptions C06_total.
+Print Assumptions C06_bounded.
+Print Assumptions C06_progress.
+Print Assumptions C06_error_terminates.
